@@ -1553,7 +1553,36 @@ def sc_c10_npindex(env, t, v, cfg):
     env.reach()
 
 
+def sc_c05_npdims(env, t, v, cfg):
+    """an array created from DIMENSIONS given as small NumPy integers (as they come out of an int8 / uint8 array): the header
+    (size, dimensions, strides) holds the documented values -- the same words as for plain Python integers"""
+    B = construct(env, t, v, cfg)
+    cls = tg.build(t)
+    isz = tg.ISZ[t[1][1]]
+    ndyn = sum(1 for d in t[2] if d is None)
+    n = min(127 // isz + 3, 40 if len(t[2]) < 3 else 12)
+    for ity in (np.int8, np.uint8):
+        what = f"C05 array created from dimensions given as {ity.__name__}({n})"
+        try:
+            h = cls(*([ity(n)] * ndyn), _buffer=B.buf)
+        except BaseException as ex:
+            if not isinstance(ex, Exception):
+                raise
+            env.check(False, what + f": raised {type(ex).__name__}: {str(ex)[:80]}")
+            continue
+        r = cls(*([int(n)] * ndyn), _buffer=B.buf)
+        for k in range(cls._data_offset // 8):
+            a = xo.Int64._from_buffer(h._buffer, h._offset + 8 * k)
+            b = xo.Int64._from_buffer(r._buffer, r._offset + 8 * k)
+            env.check(env.eq(a, b), what + f": header word {k} (size, dimensions, strides) holds the documented value")
+        env.check(env.eq(h._size, r._size), what + ": the object reports the documented size")
+        env.check([int(x) for x in h._strides] == [int(x) for x in r._strides], what + ": the handle addresses items with the documented strides")
+    neighbours_intact(env, B, "by creating arrays from NumPy-integer dimensions")
+    env.reach()
+
+
 SCENARIOS = {
+    "c05np": sc_c05_npdims,
     "c01": sc_c01,
     "c01x": sc_c01_xobject,
     "c01cap": sc_c01_capacity,
